@@ -327,7 +327,6 @@ func genMerge(r *rand.Rand) dockerIn {
 	return in
 }
 
-func genDeterminism(r *rand.Rand) dockerIn { return genMerge(r) }
 
 var selNames = []string{"a", "ab", "b", "web", "db-1", "x.y", ""}
 var selKeys = []string{"app", "com.docker.compose.service", "k-1", "1st", "\xc3\xa9t\xc3\xa9", "a/b", "x y", "tier", "ZONE"}
@@ -455,5 +454,53 @@ func genLifecycle(r *rand.Rand) dockerIn {
 	if r.Intn(3) == 0 {
 		in.Frag = []int{1 + r.Intn(9)}
 	}
+	return in
+}
+
+func allPerms(n int) [][]int {
+	var out [][]int
+	var rec func(cur []int, used []bool)
+	rec = func(cur []int, used []bool) {
+		if len(cur) == n {
+			out = append(out, append([]int{}, cur...))
+			return
+		}
+		for i := 1; i <= n; i++ {
+			if !used[i] {
+				used[i] = true
+				rec(append(cur, i), used)
+				used[i] = false
+			}
+		}
+	}
+	rec(nil, make([]bool, n+1))
+	return out
+}
+
+func genDeterminism(r *rand.Rand) dockerIn {
+	in := baseIn()
+	in.Shape = []string{"log", "count", "sumcount", "log"}[r.Intn(4)]
+	in.Start, in.End, in.Step, in.Range = []int{1700000000, 0}, []int{1700000060, 0}, 20, 600
+	nc := 2 + r.Intn(4)
+	sec := 1700000001
+	for c := 1; c <= nc; c++ {
+		ctr := simpleCtr(fmt.Sprintf("id%d", c), fmt.Sprintf("n%d", c), nil)
+		// several Docker labels: the label map of every record has 10+ entries, so map order matters for keys
+		ctr.LabelKV = [][2][]int{{B("app"), B(pick(r, []string{"a", "b"}))}, {B("tier"), B(pick(r, []string{"x", "y"}))}, {B("com.example/role"), B("r")}}
+		ctr.Frames = []Frame{}
+		for j := 0; j < 1+r.Intn(4); j++ {
+			// distinct timestamps across the whole inventory, so that the rendered output is fully determined
+			ctr.Frames = append(ctr.Frames, Frame{Typ: 1 + r.Intn(2), TS: []int{sec, 0}, Msg: B(fmt.Sprintf("c%d-%d", c, j+1))})
+			sec++
+		}
+		in.Ctrs = append(in.Ctrs, ctr)
+	}
+	perms := allPerms(nc)
+	if len(perms) > 24 {
+		r.Shuffle(len(perms), func(a, b int) { perms[a], perms[b] = perms[b], perms[a] })
+		perms = perms[:24]
+	}
+	in.Orders = perms
+	in.Reps = 2
 	return in
 }
